@@ -24,7 +24,7 @@ BUDGET = {"quick": {"runs": 24000, "wall": 80}, "thorough": {"runs": 400000, "wa
 SHRINK_LISTS = ("ops",)
 PROBES = {"C20": ["stop:budget", "stop:patience", "stop:reject", "stop:tol", "step-after-stop",
                   "reset-after-stop", "reset-with-stale-patience", "exact-threshold", "batched-mixed",
-                  "driver:optimize", "driver:optimize-again", "driver:mpc", "driver:icp", "driver:second-call", "first-step-inf"]}
+                  "driver:optimize", "driver:optimize-again", "driver:mpc", "driver:icp", "driver:second-call", "first-step-inf", "verbose"]}
 
 DYADIC = (0.5, 0.25, 1.0, 0.125, 2.0)
 KINDS = ("dec_big", "dec_small", "equal", "increase", "exact_thr", "below_tol", "rejected")
@@ -49,7 +49,7 @@ def generate(seed, tier, prop="C20"):
     tol = r.choice([1e-5, 1e-3, 0.1, 0.0])
     rep = r.choice(["float", "t64", "t32"]) if mode == "plateau" else r.choice(["float", "t64", "t32", "b64", "b32"])
     cfg = {"steps": steps, "patience": patience, "decreasing": dec, "tol": tol, "rep": rep,
-           "batch": r.randint(2, 4) if rep.startswith("b") else 0}
+           "batch": r.randint(2, 4) if rep.startswith("b") else 0, "verbose": r.random() < 0.2}
     plan = {"engine": NAME, "seed": seed, "mode": mode, "config": cfg, "ops": []}
     ro = rng.stream(seed, "ops")
     if mode in ("plateau", "bason"):
@@ -210,7 +210,7 @@ def _exec_plateau(plan, out, tr):
     c = plan["config"]
     d, rep = float(c["decreasing"]), c["rep"]
     opt = StubOpt(with_reject=True)
-    ctl = StopOnPlateau(opt, steps=c["steps"], patience=c["patience"], decreasing=d)
+    ctl = StopOnPlateau(opt, steps=c["steps"], patience=c["patience"], decreasing=d, verbose=bool(c.get("verbose")))
     ref = RefCtl(c["steps"], c["patience"])
     scale = 500.0 * d + 5.0
     cur = scale
@@ -268,7 +268,7 @@ def _exec_bason(plan, out, tr):
     c = plan["config"]
     d, tol, rep = float(c["decreasing"]), float(c["tol"]), c["rep"]
     b = max(1, c["batch"])
-    mk = lambda: ReduceToBason(steps=c["steps"], patience=c["patience"], decreasing=d, tol=tol)
+    mk = lambda: ReduceToBason(steps=c["steps"], patience=c["patience"], decreasing=d, tol=tol, verbose=bool(c.get("verbose")))
     ctl = mk()
     ref = RefCtl(c["steps"], c["patience"])
     base = max(tol, 1e-6) * 1e5 + 3.0
@@ -603,6 +603,12 @@ def _drive_optimize(plan, out, tr):
 def execute(plan, prop, out, tr):
     mode = plan["mode"]
     tr.ev("plan", mode, plan["config"])
+    if plan["config"].get("verbose") and mode in ("plateau", "bason"):
+        out.probe("verbose")
+        import io, contextlib
+        with contextlib.redirect_stdout(io.StringIO()):
+            (_exec_plateau if mode == "plateau" else _exec_bason)(plan, out, tr)
+        return
     if mode == "plateau":
         _exec_plateau(plan, out, tr)
     elif mode == "bason":
